@@ -1245,3 +1245,34 @@ package plenccodec
 //@   ensures[C05] @plenccodec.Codec.WireType(p.Underlying) == 1 || @plenccodec.Codec.WireType(p.Underlying) == 5 ==> len(result) == len(data) + @Size(p, ptr, tag)
 //@   ensures[C02] 0 < len(tag) && len(tag) <= 16 ==> at(result, len(data), bytes(tag), 16)
 //@   ensures[C06,C11] len(result) >= len(data) && (forall j int :: 0 <= j && j < len(data) ==> result[j] == old(data[j]))
+
+//@ # ---- the map codec's encoders (C02, C05): count, then every entry behind its own length, key = field 1, value = field 2 ----
+//@ func plenccodec.*MapCodec.sizeFor
+//@   safety C05
+//@   assigns nothing
+//@   ensures[C05,C02] @plenccodec.Codec.Omit(underlying, ptr) ==> result == 0                                       # an omitted key or value takes no room in the entry
+//@   ensures[C05,C02] !@plenccodec.Codec.Omit(underlying, ptr) ==> result == @plenccodec.Codec.Size(underlying, ptr, tag)
+
+//@ func plenccodec.*MapCodec.sizeForEntry
+//@   safety C05
+//@   assigns nothing
+//@   ensures[C05,C02] result == @sizeFor(c, c.keyCodec, k, c.keyTag) + @sizeFor(c, c.valueCodec, v, c.valueTag)
+
+//@ func plenccodec.*MapCodec.size
+//@   safety C05
+//@   assigns nothing
+//@   loop 1 invariant[C05] size >= 0 && size < (1 << 50)
+//@   loop 1 assume size < (1 << 49)                           # the total encoded size fits well inside an int
+//@   # every entry the iterator yields contributes its own length prefix and the size of its key and value fields
+//@   loop 1 step[C05,C02] called_MapCodec_sizeForEntry ==> call_MapCodec_sizeForEntry_arg1 == call_mapiterkey_r0 && call_MapCodec_sizeForEntry_arg2 == call_mapiterelem_r0 && size == head_size + vlen(uint64(call_MapCodec_sizeForEntry_r0)) + call_MapCodec_sizeForEntry_r0
+
+//@ func plenccodec.*MapCodec.append
+//@   safety C05 C11
+//@   assigns nothing
+//@   loop 1 invariant[C06,C11] len(data) >= len(data0) + vlen(uint64(old(@plenccodec.maplen(ptr)))) && (forall j int :: 0 <= j && j < len(data0) ==> data[j] == data0[j])
+//@   loop 1 invariant[C02] at(data, len(data0), venc(uint64(old(@plenccodec.maplen(ptr)))), 10)
+//@   # every entry the iterator yields is written as its length - the size sizeForEntry announces for this key and value -
+//@   # followed by exactly that many bytes
+//@   loop 1 step[C05,C02] called_MapCodec_sizeForEntry ==> call_MapCodec_sizeForEntry_arg1 == call_mapiterkey_r0 && call_MapCodec_sizeForEntry_arg2 == call_mapiterelem_r0 && call_AppendVarUint_arg1 == uint64(call_MapCodec_sizeForEntry_r0) && len(data) == athead(len(data)) + vlen(uint64(call_MapCodec_sizeForEntry_r0)) + call_MapCodec_sizeForEntry_r0
+//@   ensures[C02] at(result, len(data), venc(uint64(old(@plenccodec.maplen(ptr)))), 10)          # the body starts with the number of entries
+//@   ensures[C06,C11] len(result) >= len(data) && (forall j int :: 0 <= j && j < len(data) ==> result[j] == old(data[j]))
